@@ -216,10 +216,16 @@ impl VarResolve for AssignToFunction {
             let variable_info = VariableInfo::new_local(expr_type.clone());
 
             // store this in the name context too to make it easier for instruction generator
+            // (once: a second assignment to the bare name of the function finds it there)
             // TODO add unit test
-            // TODO what if the name already exists?
-            ctx.names
-                .insert_compact(converted_name.as_bare_name().clone(), variable_info);
+            if ctx
+                .names
+                .get_compact_var_recursively(converted_name.as_bare_name(), function_qualifier)
+                .is_none()
+            {
+                ctx.names
+                    .insert_compact(converted_name.as_bare_name().clone(), variable_info);
+            }
 
             let expr = Expression::Variable(converted_name, expr_type);
 
